@@ -173,32 +173,62 @@ func runC16(c *Check) {
 	c.Ob("R16.1", "Validate: app version bound", len(nv) > 0 && !res.Reached, p.Pos(val.Pos()), "success only across the supported app-version bound", res.Witness...)
 
 	// Verify
-	vsucc := blocksOfReturns(successReturns(ver))
-	adj1, n1 := pairGate(ver, both(hasFieldOn("Header", "ValidatorsHash"), fromParam(ver, 1)), both(hasFieldOn("Header", "NextValidatorsHash"), both(fromParam(ver, 0), notFromParam(ver, 1))))
-	adj2, n2 := pairGate(ver, both(hasCallOn("ExtendedHeader", "LastHeader"), fromParam(ver, 1)), both(hasCallOn("ExtendedHeader", "Hash"), both(fromParam(ver, 0), notFromParam(ver, 1))))
-	nT := 0
-	trust := callGates(func(g *ssa.Call, _ int) GateKind {
-		o := calleeObj(&g.Call)
-		if o == nil || o.Name() != "VerifyCommitLightTrusting" || len(g.Call.Args) < 3 {
+	// Verify may hand a branch over to a helper method with the same (trusted, untrusted) pair
+	// (`return eh.verifyAdjacent(untrst)`): the rules are evaluated on Verify and on every such
+	// helper, each with its own success returns; a delegating return is discharged by its helper.
+	verFns := []*ssa.Function{ver}
+	delegated := map[*ssa.BasicBlock]bool{}
+	for _, r := range returnsOf(ver) {
+		g, _ := resolveCallThroughLocals(r.Results[len(r.Results)-1])
+		if g == nil || g.Call.StaticCallee() == nil || !p.FirstParty(g.Call.StaticCallee()) || g.Call.StaticCallee().Blocks == nil {
+			continue
+		}
+		h := g.Call.StaticCallee()
+		if len(g.Call.Args) == 2 && len(h.Params) == 2 && g.Call.Args[0] == ssa.Value(ver.Params[0]) && g.Call.Args[1] == ssa.Value(ver.Params[1]) {
+			verFns = append(verFns, h)
+			delegated[r.Block()] = true
+			c.SawFunc(h)
+		}
+	}
+	n1, n2, nT := 0, 0, 0
+	var res1, res2 GateResult
+	for _, vf := range verFns {
+		vf := vf
+		vsucc := blocksOfReturns(successReturns(vf))
+		if vf == ver {
+			vsucc = minusBlocks(vsucc, delegated)
+		}
+		adj1, k1 := pairGate(vf, both(hasFieldOn("Header", "ValidatorsHash"), fromParam(vf, 1)), both(hasFieldOn("Header", "NextValidatorsHash"), both(fromParam(vf, 0), notFromParam(vf, 1))))
+		adj2, k2 := pairGate(vf, both(hasCallOn("ExtendedHeader", "LastHeader"), fromParam(vf, 1)), both(hasCallOn("ExtendedHeader", "Hash"), both(fromParam(vf, 0), notFromParam(vf, 1))))
+		n1 += k1
+		n2 += k2
+		trust := callGates(func(g *ssa.Call, _ int) GateKind {
+			o := calleeObj(&g.Call)
+			if o == nil || o.Name() != "VerifyCommitLightTrusting" || len(g.Call.Args) < 3 {
+				return NotGate
+			}
+			recv := backSlice(g.Call.Args[0], SliceOpt{})
+			commit := backSlice(g.Call.Args[2], SliceOpt{})
+			if recv.Vals[vf.Params[0]] && !recv.Vals[vf.Params[1]] && recv.HasFieldNamed("ExtendedHeader", "ValidatorSet") &&
+				commit.Vals[vf.Params[1]] && commit.HasFieldNamed("ExtendedHeader", "Commit") {
+				nT++
+				return GateErr
+			}
 			return NotGate
+		})
+		if r := gateWalk(p, vf, vsucc, orCuts(adj1, trust), nil); r.Reached && !res1.Reached {
+			res1 = r
 		}
-		recv := backSlice(g.Call.Args[0], SliceOpt{})
-		commit := backSlice(g.Call.Args[2], SliceOpt{})
-		if recv.Vals[ver.Params[0]] && !recv.Vals[ver.Params[1]] && recv.HasFieldNamed("ExtendedHeader", "ValidatorSet") &&
-			commit.Vals[ver.Params[1]] && commit.HasFieldNamed("ExtendedHeader", "Commit") {
-			nT++
-			return GateErr
+		if r := gateWalk(p, vf, vsucc, orCuts(adj2, trust), nil); r.Reached && !res2.Reached {
+			res2 = r
 		}
-		return NotGate
-	})
-	res = gateWalk(p, ver, vsucc, orCuts(adj1, trust), nil)
-	c.Ob("R16.1", "Verify: adjacent validators hash link or trusted signatures", n1 > 0 && !res.Reached, p.Pos(ver.Pos()),
-		"success only across {untrusted.ValidatorsHash == trusted.NextValidatorsHash} or VerifyCommitLightTrusting on the trusted validator set", res.Witness...)
-	res = gateWalk(p, ver, vsucc, orCuts(adj2, trust), nil)
-	c.Ob("R16.1", "Verify: adjacent last-header link or trusted signatures", n2 > 0 && !res.Reached, p.Pos(ver.Pos()),
-		"success only across {untrusted.LastHeader() == trusted.Hash()} or VerifyCommitLightTrusting on the trusted validator set", res.Witness...)
-	// evaluate trust gate once so that nT is counted even if the adjacent cuts discharge everything
-	_ = gateWalk(p, ver, vsucc, trust, nil)
+		// evaluate trust gate once so that nT is counted even if the adjacent cuts discharge everything
+		_ = gateWalk(p, vf, vsucc, trust, nil)
+	}
+	c.Ob("R16.1", "Verify: adjacent validators hash link or trusted signatures", n1 > 0 && !res1.Reached, p.Pos(ver.Pos()),
+		"success only across {untrusted.ValidatorsHash == trusted.NextValidatorsHash} or VerifyCommitLightTrusting on the trusted validator set", res1.Witness...)
+	c.Ob("R16.1", "Verify: adjacent last-header link or trusted signatures", n2 > 0 && !res2.Reached, p.Pos(ver.Pos()),
+		"success only across {untrusted.LastHeader() == trusted.Hash()} or VerifyCommitLightTrusting on the trusted validator set", res2.Witness...)
 	c.Ob("R16.1", "Verify: trusting check uses the trusted validator set and the untrusted commit", nT > 0, p.Pos(ver.Pos()),
 		"VerifyCommitLightTrusting is invoked on the receiver's (trusted) ValidatorSet with the untrusted header's Commit")
 	// the adjacency test itself compares the two heights
